@@ -643,6 +643,37 @@ def c_cross_frame_sum(case, ctx):
 KEEP_OPS = ("a+s", "s+a", "a-s", "s-a", "k*a", "a*k", "a/k")
 
 
+def c_creeping_frames(case, ctx):
+    """A long chain of frame changes, each frame a few 1e-9 further along one direction than the previous one (every
+    single hop is inside the library's documented 1e-8 same-frame shortcut), then one change to a far frame C.
+    Whatever the shortcut does per hop, the object must never be further than ONE shortcut width from the truth:
+    the final coordinates equal the direct A -> C result (oracle) to 1e-8 relative + the allowance of one skipped
+    hop, independently of the number of hops.  (A label that follows every sub-tolerance step while the numbers stay
+    put drifts by hops x step.)"""
+    kind, d = case["kind"], np.asarray(case["d"], dtype=float)
+    A, C = np.asarray(case["A"], dtype=float), np.asarray(case["C"], dtype=float)
+    u = np.asarray(case["dir"], dtype=float)
+    step, hops = float(case["step"]), int(case["hops"])
+    ctx.label(kind)
+    ctx.label("hops %s" % ("<100" if hops < 100 else "<300" if hops < 300 else ">=300"))
+    ctx.nontrivial(nrm(d) > 0 and hops * step > 5e-8)
+    fr = Budget(ctx, [A, C])
+    x = mk(kind, d, A, case["dshape"])
+    cur = A.copy()
+    for k in range(hops):
+        nxt = cur.copy()
+        nxt[:3] = nxt[:3] + step * u            # translation only: relative rotations below 1e-6 are dropped anyway
+        sut(x.changeFrame, mk_tm(nxt))
+        cur = nxt
+    sut(x.changeFrame, mk_tm(C))
+    got = val(x, "after the chain")
+    want = move(kind, d, A, C)
+    scale = nrm(d) * (1.0 + nrm(C[:3] - A[:3])) * (1.0 + hops * step)
+    close(got, want, fr.tol(scale, nskip=1), "%d sub-tolerance hops (%.1e each) then -> C, vs the direct A -> C result"
+          % (hops, step))
+    check_frame(x, C, "after the chain", 1)
+
+
 def c_result_keeps_kind(case, ctx):
     """Whatever object an arithmetic operator returns is again a wrench (resp. twist-like) in the left
     operand's frame: re-expressing THE RESULT in another frame follows the same oracle formula."""
@@ -1003,4 +1034,7 @@ CLAUSES = [
     Clause("scale_unscale", c_scale_unscale,
            _arith_case(SCALAR_FORMS, {"order": st.sampled_from(["k*a", "a*k"]), "sf": K_F, "si": K_I}), 1000, 8000),
     Clause("arith_result_keeps_kind", c_result_keeps_kind, _keep_case(), 1200, 8000),
+    Clause("creeping_frames_do_not_drift", c_creeping_frames, st.fixed_dictionaries({
+        "kind": KINDS, "dshape": DSHAPE, "A": _FRAMES10, "C": _FRAMES10, "d": _SIX,
+        "dir": G.generic_unit_vectors(), "step": G.floats(2e-9, 9e-9), "hops": st.integers(20, 400)}), 150, 2000),
 ]
